@@ -500,6 +500,8 @@ fn oracle_overlay(depth: usize) -> bool {
             // pre-populated upper layer (C08: all layer contents): an entry and a marker for the same path side by side
             upper.join("s").unwrap().create_file().unwrap().write_all(b"s").unwrap();
             upper.join(".whiteout").unwrap().create_dir_all().unwrap(); upper.join(".whiteout/s_wo").unwrap().create_file().unwrap();
+            // stray content of the bookkeeping folder that is no marker: a file whose name is shorter than the marker suffix (multi-byte) and a directory
+            upper.join(".whiteout/é").unwrap().create_file().unwrap(); upper.join(".whiteout/d").unwrap().create_dir().unwrap(); upper.join(".whiteout/d/x").unwrap().create_file().unwrap();
             // a marker whose entry is in no layer any more (created and removed through the overlay)
             ov.join("n0").unwrap().create_file().unwrap().write_all(b"0").unwrap(); ov.join("n0").unwrap().remove_file().unwrap();
             let before: Vec<_> = lowers.iter().map(snapshot).collect();
@@ -976,7 +978,7 @@ fn oracle_times() -> bool {
 fn oracle_handles() -> bool {
     let mut r = Report::new("handles");
     for kind in ["memory", "altroot", "overlay"] {
-        for scenario in 0..8 {
+        for scenario in 0..9 {
             r.case();
             let (root, _extra) = make_backend(kind);
             root.join("d").unwrap().create_dir().unwrap();
@@ -1002,6 +1004,9 @@ fn oracle_handles() -> bool {
                         drop(a);
                         if f.read_to_string().ok().as_deref() != Some("AAA") { return Some(format!("dropping the first handle does not publish its buffer: file holds {:?}", f.read_to_string().ok())); }
                     }
+                    8 => { // the file is replaced by a directory while a write handle is open
+                           let mut h = f.append_file().unwrap(); h.write_all(b"d").unwrap(); f.remove_file().unwrap(); f.create_dir().unwrap(); let _ = h.flush(); drop(h);
+                           let h2 = f.create_file(); drop(h2); }
                     _ => { let h = f.create_file().unwrap(); let mut g = f.create_file().unwrap(); g.write_all(b"late").unwrap(); drop(g); drop(h);
                            tr(&format!("idle {:?}", f.read_to_string().ok())); let h2 = f.create_file().unwrap(); f.remove_file().unwrap(); drop(h2); }
                 }
@@ -1049,7 +1054,38 @@ fn oracle_walk_vanish() -> bool {
             match res { Err(_) => r.fail(what, "panicked".into()), Ok(Some(d)) => r.fail(what, d), Ok(None) => {} }
         }
     }
+    altroot_base_gone(&mut r);
     r.done()
+}
+
+/// the base directory of an AltrootFS is removed, or replaced by a file, through the underlying filesystem: every observer of the altroot's root
+/// tells the same story (C05) and nothing panics
+fn altroot_base_gone(r: &mut Report) {
+    for replaced in [false, true] {
+        r.case();
+        let inner: VfsPath = MemoryFS::new().into();
+        inner.join("base").unwrap().create_dir().unwrap();
+        let alt: VfsPath = AltrootFS::new(inner.join("base").unwrap()).into();
+        alt.join("f").unwrap().create_file().unwrap().write_all(b"x").unwrap();
+        inner.join("base").unwrap().remove_dir_all().unwrap();
+        if replaced { inner.join("base").unwrap().create_file().unwrap().write_all(b"now a file").unwrap(); }
+        let res = catch_unwind(AssertUnwindSafe(|| {
+            let (ex, isd, isf) = (alt.exists().ok(), alt.is_dir().ok(), alt.is_file().ok());
+            let md = alt.metadata().ok().map(|m| m.file_type);
+            let listable = alt.read_dir().is_ok();
+            let walkable = alt.walk_dir().is_ok();
+            tr(&format!("base gone {} {:?} {:?} {:?} {:?} {} {}", replaced, ex, isd, isf, md, listable, walkable));
+            let is_dir_story = md == Some(VfsFileType::Directory);
+            if isd != Some(is_dir_story) && isd.is_some() { return Some(format!("is_dir says {:?} but metadata says {:?}", isd, md)); }
+            if listable != is_dir_story { return Some(format!("read_dir {} although metadata says {:?} (is_dir {:?})", if listable { "succeeds" } else { "fails" }, md, isd)); }
+            if isd == Some(true) && !listable { return Some("is_dir is true for a root that cannot be listed".into()); }
+            if ex == Some(false) && (isd == Some(true) || isf == Some(true)) { return Some(format!("exists is false but is_dir {:?} / is_file {:?}", isd, isf)); }
+            if walkable && !listable { return Some("walk_dir starts on a root that cannot be listed".into()); }
+            None
+        }));
+        let what = format!("altroot base directory {}", if replaced { "replaced by a file" } else { "removed" });
+        match res { Err(_) => r.fail(what, "panicked".into()), Ok(Some(d)) => r.fail(what, d), Ok(None) => {} }
+    }
 }
 
 // ------------------------------------------------------------------------------------------------ hostile directory content (C13, C05)
